@@ -51,6 +51,10 @@ def main(argv):
                         raise MemoryError("injected failure of the worker")
                 self.n += 1
                 qu.put(item, *a, **kw)
+                if not mine and kind.startswith("lock"):
+                    # the surviving workers are still inside their batches (a result queued behind the dead worker's lock,
+                    # more work to do) when the parent notices the death
+                    time.sleep(2.0)
 
         real(seq_batch, Q())
 
